@@ -219,15 +219,12 @@ def main(tier):
     ck.built = built
     rnd = core.rng_for("c04main", ck.seed, tier)
     product = list(itertools.product(TREES, LOCKS, CACHE, STRUCT, ENDING))
-    if tier == "quick":
-        # covering sample: every pair of (tree, lock), (tree, ending), (lock, cache) ... via greedy rows
-        feats = {"tree": TREES, "lock": LOCKS, "cache": CACHE, "structured": STRUCT, "ending": ENDING}
-        rows = list(gen.covering_rows(feats, 2, rnd, candidates=10))
-        points = [(r["tree"], r["lock"], r["cache"], r["structured"], r["ending"]) for r in rows]
-        points += rnd.sample(product, 60)
-    else:
-        points = product
-        ck.exhaustive = True
+    # the whole product in both tiers (a point costs ~20 ms under strace); thorough repeats it with three further
+    # seeds (different signal positions and tree contents)
+    points = list(product)
+    ck.exhaustive = True
+    if tier == "thorough":
+        points = points * 4
     jobs = [(built, ck.seed, i, p) for i, p in enumerate(points)]
     for res in frame.pmap(work, jobs, chunksize=2):
         ck.absorb(res)
@@ -238,8 +235,8 @@ def main(tier):
     ck.extra["points_run"] = len(points)
     ck.rule = ("configuration product tree{none missing, some missing, unreadable/special files, invalid UTF-8, empty / missing source "
                "dir, bad config, 12-file tree} x lock{absent,valid,corrupt,empty} x use_cache{omitted,true,false} x structured x "
-               "ending{normal, SIGTERM, SIGINT at a seeded operation} (quick: pairwise-covering sample + 60 random points; thorough: "
-               "all %d points, exhaustive) + corpora; every --check process runs under strace -f -y; every successful kernel call "
+               "ending{normal, SIGTERM, SIGINT at a seeded operation} (all %d points in both tiers, exhaustive; thorough x4 with fresh "
+               "signal positions) + corpora; every --check process runs under strace -f -y; every successful kernel call "
                "that can mutate the filesystem is a violation, as is any difference (content, mode, size, mtime, inode, path set) "
                "between the before/after snapshots of project, TMPDIR, cwd and an outside directory; distinct_nontrivial = distinct points"
                % len(product))
